@@ -4,14 +4,16 @@
               A <nadds> <items>*nadds  Q <nq> (<len> <name>*len)*nq
 
   cfg      4 bits `walkFromStart emptyPathPanics ignoreSpan primRecursive` (e.g. 0000 = Cfg.fixed), optionally a
-           fifth `implAtSite`
+           fifth `implAtSite` and a sixth `inPlace` (1 = the passes run on the runtime itself and a rejected add
+           leaves what it had inserted: `RotoV.Reg.sessionIP`; default: all or nothing, `RotoV.Reg.session`)
   lexcode  first + 8*more + 16*whole, first: 0 end-of-input, 1 lexer error, 2 ident, 3 keyword, 4 other token
   items    <k> item*k ;  item = M name items | T name id | F name np ty*np ty tag
            | C name ty tag | I id items | U np (len name*len)*np
   ty       u | r id | o ty | l ty | v ty ty | e ty ty
 
-  answer   `<outcome>*` (one per add until the first that is not ok: ok / err:<kind> / panic:<site>)
-           `|` `<resolution>*nq` (after the last ok add; `-` if some add failed)
+  answer   `<outcome>*` (one per add — the history goes on after a rejected add, with the runtime that add
+           left — until the first panic: ok / err:<kind> / panic:<site>)
+           `|` `<resolution>*nq` (in the runtime after the last add; `-` after a panic)
 
   c18 flatten <tree>     the paths `library!` must emit for a `use` declaration (`RotoV.Use.flattenSpec`;
                          the function generated from the source is proved equal to it in Props/C18.lean,
@@ -21,6 +23,7 @@
 -/
 import Driver.Util
 import RotoV.Model.Registration
+import RotoV.Model.RegistrationSession
 import RotoV.Model.UseTree
 
 namespace Driver.C18
@@ -81,10 +84,11 @@ def lexOf (c : Nat) : Lex :=
     more := (c / 8) % 2 = 1,
     whole := (c / 16) % 2 = 1 }
 
-def cfgOf (s : String) : Option Cfg :=
+def cfgOf (s : String) : Option (Cfg × Bool) :=
   match s.toList with
-  | [a, b, c, d] => some ⟨a = '1', b = '1', c = '1', d = '1', false⟩
-  | [a, b, c, d, e] => some ⟨a = '1', b = '1', c = '1', d = '1', e = '1'⟩
+  | [a, b, c, d] => some (⟨a = '1', b = '1', c = '1', d = '1', false⟩, true)
+  | [a, b, c, d, e] => some (⟨a = '1', b = '1', c = '1', d = '1', e = '1'⟩, true)
+  | [a, b, c, d, e, f] => some (⟨a = '1', b = '1', c = '1', d = '1', e = '1'⟩, f ≠ '1')
   | _ => none
 
 def showErr : Err → String
@@ -117,8 +121,13 @@ def showDecl : Option Decl → String
     | .const t tag => s!"const:{tag}:{showTy t}"
     | .other => "other"
 
+def showOutcome : Outcome → String
+  | .ok => "ok"
+  | .err e => "err:" ++ showErr e
+  | .panic s => "panic:" ++ showSite s
+
 def session : P String := do
-  let cfg ← (do let t ← tok; (cfgOf t : Option Cfg))
+  let (cfg, atomic) ← (do let t ← tok; (cfgOf t : Option (Cfg × Bool)))
   expect "L"; let n ← nat; let codes ← rep nat n
   expect "P"; let k ← nat; let prims ← rep (do let a ← nat; let b ← nat; pure (a, b)) k
   expect "O"; let k ← nat; let others ← rep nat k
@@ -126,19 +135,13 @@ def session : P String := do
   expect "Q"; let nq ← nat; let qs ← rep path nq
   let arr := codes.toArray
   let lex : Name → Lex := fun i => lexOf (arr.getD i 0)
-  let rec go (st : St) (libs : List Items) (acc : List String) : List String × Option St :=
-    match libs with
-    | [] => (acc.reverse, some st)
-    | l :: rest =>
-      match register cfg lex st l with
-      | .ok st' => go st' rest ("ok" :: acc)
-      | .err e => (("err:" ++ showErr e) :: acc |>.reverse, none)
-      | .panic s => (("panic:" ++ showSite s) :: acc |>.reverse, none)
-  let (outs, fin) := go (St.init prims others) libs []
-  let res := match fin with
-    | none => ["-"]
-    | some st => qs.map (fun q => showDecl (resolvePath st q))
-  pure (" ".intercalate outs ++ " | " ++ " ".intercalate res)
+  let (fin, outs) := sessionSrc cfg lex atomic (St.init prims others) libs
+  let isPanic : Outcome → Bool := fun o => match o with | .panic _ => true | _ => false
+  let panicked := outs.any isPanic
+  -- the history up to and including the first panic (the host does not survive it)
+  let outs := if panicked then outs.takeWhile (fun o => !isPanic o) ++ (outs.filter isPanic).take 1 else outs
+  let res := if panicked then ["-"] else qs.map (fun q => showDecl (resolvePath fin q))
+  pure (" ".intercalate (outs.map showOutcome) ++ " | " ++ " ".intercalate res)
 
 mutual
 partial def useTree : P RotoV.Use.UseTree := do
